@@ -167,7 +167,8 @@ def _build_and_audit(ctx, engine):
         gen_ob = [n for n in gen_all if n.split(".")[-1] in set(getattr(engine, "GEN_OBLIGATIONS", []))]
     checker_cmd = "cd lean && lake build && lake env lean FinamModel/Audit.lean"
     if ctx.tier == "thorough" and build.ok:
-        mods = [f"FinamModel.Props.{prop}"] + [f"FinamModel.{m}" for m in getattr(engine, "MODULES", [])]
+        mods = ([f"FinamModel.Props.{prop}"] + [f"FinamModel.{m}" for m in getattr(engine, "MODULES", [])]
+                + [f"FinamModel.Props.{d}" for d in tr_deps] + [f"FinamModel.Translated.{sp['lean']}" for sp in tr_specs])
         ok, log = common.leanchecker(mods)
         if not ok:
             raise MachineryError("leanchecker rejected the compiled modules:\n" + log)
@@ -198,6 +199,10 @@ def _run_engine(ctx, engine, broken, theorems, gen_ob, checker_cmd, tr_specs):
     cover.start()
     try:
         engine.run(ctx, res)
+        # translation validation: the translated definitions of this property against the real functions
+        import random as _random
+        from . import trvalidate
+        trvalidate.validate(prop, _random.Random(f"tv-{prop}-{ctx.seed}"), ctx.n(60, 600), res)
     finally:
         cover.stop()
     try:
@@ -268,7 +273,9 @@ def _run_engine(ctx, engine, broken, theorems, gen_ob, checker_cmd, tr_specs):
                           tuple(getattr(engine, "TRUSTED", ())) + ((
                               "harness/py2lean.py: the translator's reading of the Python subset (functional translation of "
                               "loops / state, Python built-ins as FinamModel/PyPrelude.lean) for the functions listed under "
-                              "translated_functions",) if tr_specs else ()))
+                              "translated_functions; validated in this run by evaluating every translated definition that does "
+                              "not read an object graph and the real Python function on the same random inputs "
+                              "(coverage.translation_validation)",) if tr_specs else ()))
     print(f"{prop} {ctx.tier} seed={ctx.seed}: {res.evaluations} cases, "
           f"{len(res.nontrivial)} distinct non-trivial, {len(theorems)} theorems, "
           f"{len(res.divergences)} divergences, {len(new)} oracle failures, "
